@@ -40,6 +40,8 @@ def class_source(name, feats, prev):
         L.append("\tbig: bigint")
     if "fl" in feats:
         L.append("\tfl: float")
+    if "cur" in feats:
+        L.append("\tcur: Self")
     L.append("\tconstructor(self, n: int) {")
     L.append("\t\tself.n = n + kseed - 5")      # kseed: a module-level variable only the constructor mentions
     if "flag" in feats:
@@ -50,6 +52,8 @@ def class_source(name, feats, prev):
         L.append("\t\tself.fl = 0.0")
     if "me" in feats:
         L.append("\t\tself.selfref = self")
+    if "cur" in feats:
+        L.append("\t\tself.cur = self")
     if "s" in feats:
         L.append('\t\tself.s = "s" + n')
     if "xs" in feats:
@@ -61,12 +65,17 @@ def class_source(name, feats, prev):
     if "other" in feats and prev:
         L.append("\t\tself.other = nil")
     L.append("\t}")
-    L.append("\tfn getn(self) -> int {\n\t\treturn self.n\n\t}")
+    bare = "bare" in feats      # inside a method a field of the object may also be named without `self.`
+    sf = "" if bare else "self."
+    L.append("\tfn getn(self) -> int {\n\t\treturn %sn\n\t}" % sf)
     L.append("\tfn setn(self, v: int) {\n\t\tself.n = v\n\t}")
-    L.append("\tfn resetn(self) {\n\t\tself.n = 0\n\t}")
-    add_body = "\t\tself.n += d\n"
+    if bare:
+        L.append("\tfn resetn(self) {\n\t\tmodify n = 0\n\t}")
+    else:
+        L.append("\tfn resetn(self) {\n\t\tself.n = 0\n\t}")
+    add_body = "\t\t%sn += d\n" % sf
     if "xs" in feats:
-        add_body += "\t\tself.xs.push(d)\n"
+        add_body += "\t\t%sxs.push(d)\n" % sf
     L.append("\tfn add(self, d: int) -> int {\n%s\t\treturn self.n\n\t}" % add_body)
     L.append("\tfn twice(self, d: int) -> int {\n\t\ta = self.add(d)\n\t\tb = self.add(d)\n\t\treturn a + b\n\t}")
     L.append("\tfn me(self) -> Self {\n\t\treturn self\n\t}")
@@ -91,15 +100,18 @@ def class_source(name, feats, prev):
         L.append("\tfn grow(self) -> bigint {\n\t\tself.big = self.big * B3 + self.n\n\t\treturn self.big\n\t}")
     if "s" in feats:
         L.append("\tfn sets(self, t: str) {\n\t\tself.s = t\n\t}")
-        L.append("\tfn cat(self) -> str {\n\t\treturn self.s + self.n\n\t}")
+        L.append("\tfn cat(self) -> str {\n\t\treturn %ss + self.n\n\t}" % sf)
     if "xs" in feats:
-        L.append("\tfn size(self) -> int {\n\t\treturn self.xs.len()\n\t}")
+        L.append("\tfn size(self) -> int {\n\t\treturn %sxs.len()\n\t}" % sf)
         L.append("\tfn resize(self) {\n\t\tself.xs.clear()\n\t}")
     if "o" in feats:
         L.append("\tfn seto(self, v: int) {\n\t\tself.o = v\n\t}")
         L.append("\tfn clearo(self) {\n\t\tself.o = nil\n\t}")
     if "xs" in feats:
         L.append("\tfn sharexs(self, x: Self) {\n\t\tself.xs = x.xs\n\t}")
+    if "cur" in feats:
+        L.append("\tfn swapcur(self, x: Self) -> int {\n\t\tself.cur = x\n\t\treturn 1\n\t}")
+        L.append("\tfn curn(self) -> int {\n\t\treturn self.cur.n\n\t}")
     if "peer" in feats:
         L.append("\tfn getp(self) -> Self {\n\t\treturn get self.peer\n\t}")
         L.append("\tfn link(self, x: Self) {\n\t\tself.peer = x\n\t}")
@@ -124,6 +136,7 @@ class HObj:
         self.flag = False
         self.big = 1
         self.fl = 0.0
+        self.cur = self
 
 
 class Interp:
@@ -343,6 +356,52 @@ class Interp:
                 # a chained call on the DIFFERENT object a Self-returning method hands back; the receiver is untouched
                 em.code("print %s.fresh().add(%d)" % (an, op["v"]))
                 em.out(str(a.n + 100 + op["v"]))
+            elif m == "sumread":
+                # one expression reads a field and calls a method that updates it: operands are evaluated left to right
+                form = op["v"] % 4
+                d = 1 + op["v"] % 3
+                old = a.n
+                a.n += d
+                if "xs" in f:
+                    a.xs.append(d)
+                if form == 0:
+                    em.code("print %s.n + %s.add(%d)" % (an, an, d))
+                    em.out(str(old + a.n))
+                elif form == 1:
+                    em.code("print %s.add(%d) + %s.n" % (an, d, an))
+                    em.out(str(a.n + a.n))
+                elif form == 2:
+                    em.code("print %s.add(%d) * 10 + %s.getn()" % (an, d, an))
+                    em.out(str(a.n * 10 + a.n))
+                else:
+                    em.code("print %s.getn() * 10 + %s.add(%d)" % (an, an, d))
+                    em.out(str(old * 10 + a.n))
+            elif m == "curadd":
+                # the receiver is a field read; the argument reassigns that field: the call goes to the object read first
+                if "cur" not in f or b is None or b.cls != a.cls:
+                    return False
+                em.code("print %s.cur.add(%s.swapcur(%s))" % (an, an, op["b"]))
+                p = a.cur
+                a.cur = b
+                p.n += 1
+                if "xs" in self.feats[p.cls]:
+                    p.xs.append(1)
+                em.out(str(p.n))
+            elif m == "curn":
+                if "cur" not in f:
+                    return False
+                em.code("print %s.curn()" % an)
+                em.out(str(a.cur.n))
+            elif m == "setcur":
+                if "cur" not in f or b is None or b.cls != a.cls:
+                    return False
+                em.code("%s.cur = %s" % (an, op["b"]))
+                a.cur = b
+            elif m == "getcur":
+                if "cur" not in f:
+                    return False
+                name = self.fresh_var(a.cur)
+                em.code("%s = %s.cur" % (name, an))
             elif m == "chainpeer":
                 if "peer" not in f or a.peer is None:
                     return False
@@ -545,7 +604,7 @@ class Interp:
 
 METHODS = ["getn", "setn", "resetn", "add", "twice", "me", "fresh", "chain", "swapn", "sets", "cat", "size", "resize", "seto",
            "clearo", "link", "peern", "bumppeer", "getpeer", "attach", "othern", "copyfrom", "copyfrom", "getme", "toggle", "toggle", "negn", "grow", "both", "drain", "chainfresh", "chainpeer", "sharexs", "sharexs",
-           "resize", "flip", "flip", "addf"]
+           "resize", "flip", "flip", "addf", "sumread", "sumread", "curadd", "curadd", "curn", "setcur", "getcur"]
 
 
 def gen_op(rng, it):
@@ -565,7 +624,7 @@ def gen_op(rng, it):
         op["m"] = rng.choice(METHODS)
         op["t"] = rng.choice(STRS)
         op["b"] = rng.choice(names)
-        if op["m"] in ("swapn", "link", "copyfrom", "sharexs"):
+        if op["m"] in ("swapn", "link", "copyfrom", "sharexs", "curadd", "setcur"):
             op["b"] = rng.choice(same)
     elif kind in ("rebind", "rebindpeer"):
         op["b"] = rng.choice(same)
@@ -594,7 +653,7 @@ def gen_classes(rng):
     names = rng.sample(CLASS_NAMES, n)
     out = []
     for i, name in enumerate(names):
-        feats = [x for x in ("s", "xs", "o", "peer", "other", "me") if rng.chance(3, 5)] + [x for x in ("flag", "big", "fl") if rng.chance(1, 3)]
+        feats = [x for x in ("s", "xs", "o", "peer", "other", "me") if rng.chance(3, 5)] + [x for x in ("flag", "big", "fl", "bare", "cur") if rng.chance(1, 3)]
         if i == 0:
             feats = [x for x in feats if x != "other"]
         out.append([name, feats])
